@@ -121,3 +121,31 @@ def run(model: Model, rep: Report) -> None:
         if isinstance(n, ast.If) and isinstance(n.test, ast.Compare) and unparse(n.test.left) == "pred":
             tests.append("".join(unparse(n.test).split()))
     r7.check(sorted(tests) == ["pred==1", "pred==2", "pred>=10"], site(dec), dec.qualname, "branches on the predictor code: == 1, == 2, >= 10", why=f"{sorted(tests)}: with /Predictor 10 every row still starts with its PNG tag byte, so treating 10 as `no predictor` leaves the tags in the samples and shears the image")
+    # ---------------------------------------------------------------- R8: inline data scanner details
+    r8 = rep.rule("C18-R8", "FSM", "inline data: exactly one end-of-line before the terminator is dropped (pattern anchored at the very end); after a failed partial match of the terminator the current byte is re-examined as a possible first byte", 2)
+    gi2 = model.func(PI + "PDFContentParser.get_inline_data")
+    import re._parser as _sp  # type: ignore[import]
+
+    subs = [c for c in walk_no_nested(gi2.node) if isinstance(c, ast.Call) and (dotted(c.func) or "") == "re.sub" and c.args and isinstance(c.args[0], ast.Constant) and isinstance(c.args[0].value, bytes)]
+    ok = False
+    why = "EOL strip not found"
+    if len(subs) == 1:
+        pat = subs[0].args[0].value
+        parsed = list(_sp.parse(pat))
+        last = parsed[-1] if parsed else None
+        at_end_string = last is not None and str(last[0]) == "AT" and str(last[1]) == "AT_END_STRING"
+        at_end = last is not None and str(last[0]) == "AT" and str(last[1]) == "AT_END"
+        ok = at_end_string
+        why = f"pattern {pat!r} ends with `$`, which also matches before a final newline: for data ending in LF followed by the LF that precedes EI, re.sub removes both, i.e. one byte of image data" if at_end else f"pattern {pat!r} is not anchored at the end of the data"
+    r8.check(ok, site(gi2, subs[0]) if subs else site(gi2), gi2.qualname, "the end-of-line strip is anchored with \\Z (end of data only)", why=why)
+    # restart: the branch that abandons a partial match must not unconditionally go back to 'nothing matched'
+    guarded_restart = any(isinstance(n, ast.Assign) and unparse(n.targets[0]) == "i" and isinstance(n.value, ast.IfExp) for n in walk_no_nested(gi2.node)) or any(isinstance(n, ast.If) and "target[0]" in unparse(n.test) and any(isinstance(x, ast.Assign) and unparse(x.targets[0]) == "i" and unparse(x.value) == "1" for x in n.body) for n in walk_no_nested(gi2.node))
+    r8.check(guarded_restart, site(gi2), gi2.qualname, "on a mismatch inside the terminator the byte just read restarts the match if it equals the terminator's first byte", why="`i = 0` unconditionally: in `...EEI` the second E is consumed as a mismatch and the terminator EI is missed - the image and everything after it are lost")
+    # ---------------------------------------------------------------- R9: every stored row has the announced size
+    r9 = rep.rule("C18-R9", "UNITS", "BMP rows are written with their full, 4-byte aligned size (short rows padded), so the file has the size its header announces", 1)
+    wl2 = model.func(I + "BMPWriter.write_line")
+    writes = [c for c in walk_no_nested(wl2.node) if isinstance(c, ast.Call) and (dotted(c.func) or "") == "self.fp.write" and c.args]
+    arg = "".join(unparse(writes[-1].args[0]).split()) if writes else ""
+    padded = "self.linesize" in arg and any(k in arg for k in (".ljust(", "+b'\\x00'*", "+bytes(")) or any("self.linesize" in unparse(n) and ("ljust" in unparse(n) or "b'\\x00' *" in unparse(n)) for n in walk_no_nested(wl2.node) if isinstance(n, ast.Assign))
+    presized = "truncate(" in unparse(model.func(I + "BMPWriter.__init__").node)
+    r9.check(padded or presized, site(wl2), wl2.qualname, "write_line pads the row to self.linesize (or the file is pre-sized)", why=f"row written as `{arg}`: the row stored last in the file (the top image row) lacks its padding bytes, so the file is up to 3 bytes shorter than bfSize/biSizeImage say and strict readers report truncation")
